@@ -120,6 +120,80 @@ def rot_direction(ctx, M, fp, rows):
     ctx.floor(rule, 4)
 
 
+def length_of(t, grp):
+    """'same' if the transform term has the length of its input IN for every input, 'shorter' if it can be shorter, None if unknown."""
+    if t == IN:
+        return "same"
+    if t[0] == "call" and t[1] in (("free", "bytes"), ("free", "bytearray"), ("free", "list"), ("free", "tuple")) and len(t[2]) == 1:
+        return length_of(t[2][0], grp)
+    if t[0] == "call" and t[1][0] == "attr" and t[1][2] == "join" and len(t[2]) == 1:
+        return None
+    if t[0] != "comp":
+        return None
+    gens = t[3]
+    def src_len(src):
+        if src == IN:
+            return "same"
+        r = length_of(src, grp)
+        if r:
+            return r
+        if src[0] == "call" and src[1] == ("free", "zip"):
+            args = src[2]
+            fin = [a for a in args if not (a[0] == "call" and a[1][0] in ("attr", "free") and str(a[1][-1]).split(".")[-1] in ("cycle", "count", "repeat"))]
+            lens = [src_len(a) for a in fin]
+            if len(fin) == 1 and lens[0] == "same":
+                return "same"
+            if any(l == "same" for l in lens):
+                return "shorter"          # zip stops at the shortest finite argument
+        return None
+    if any(g[1] != () for g in gens):
+        return "shorter"                  # a filter drops elements
+    if len(gens) == 1:
+        return src_len(gens[0][0])
+    if len(gens) == 2:
+        # for i in range(0, len(IN), group) for k in <a collection of exactly `group` elements>
+        a, b = gens[0][0], gens[1][0]
+        lenin = ("call", ("free", "len"), (IN,), ())
+        outer = a == ("call", ("free", "range"), (N.const(0), lenin, grp), ())
+        inner = b[0] == "comp" and len(b[3]) == 1 and b[3][0] == (("call", ("free", "range"), (grp,), ()), ())
+        if outer and inner:
+            return "same"                 # given len(IN) % group == 0 (R2 length guard)
+    return None
+
+
+def length_preserving(ctx, rule):
+    """XOR and rotation never change the number of bytes: what they hand on has the length of what they were given, on every branch."""
+    grp = ("eval", N.selfattr("group"), CTX)
+    n = 0
+    for cls in ("ProcessXor", "ProcessRotateLeft"):
+        for meth in ("_parse", "_build"):
+            fi, rows = transform_rows(ctx, cls, meth)
+            res = {}
+            for g, t in rows:
+                res.setdefault(length_of(t, grp), []).append(t)
+            n += 1
+            if None in res:
+                ctx.error("%s undecided: the length of %s in %s.%s is not recognised" % (rule, N.show(res[None][0])[:100], cls, meth))
+            ctx.ob(rule, fi, "shorter" not in res and "same" in res, "%s.%s hands on exactly as many bytes as it was given (element-wise over the data, the key cycled)%s" % (
+                cls, meth, "" if "shorter" not in res else ": " + N.show(res["shorter"][0])[:120]), key="%s %s length" % (cls, meth))
+    return n
+
+
+def rot_length_guard(ctx, rule):
+    """Every path of ProcessRotateLeft._parse/_build that indexes the data in groups first established len(data) % group == 0
+    (otherwise the group indexing raises IndexError, or a short last group is silently mangled)."""
+    grp = ("eval", N.selfattr("group"), CTX)
+    n = 0
+    for meth in ("_parse", "_build"):
+        fi, rows = transform_rows(ctx, "ProcessRotateLeft", meth)
+        want = N.mk_cmp("==", ("mod", ("call", ("free", "len"), (IN,), ()), grp), N.const(0))
+        idx = [(g, t) for g, t in rows if t != IN and any(x[0] == "sub" and x[1] == IN for x in N.walk(t))]
+        ok = bool(idx) and all(want in g for g, t in idx)
+        n += 1
+        ctx.ob(rule, fi, ok, "ProcessRotateLeft.%s indexes the data by group only after len(data) %% group == 0 was established (%d indexing branches)" % (meth, len(idx)), key="RotateLeft length guard dominates %s" % meth)
+    return n
+
+
 def run(ctx):
     M = ctx.model
     # ---- R1 ProcessXor
@@ -144,13 +218,14 @@ def run(ctx):
     uses = [x for g, t in a for x in list(N.walk(t)) + [y for c in g for y in N.walk(c)] if x[0] == "mod" and N.contains(x[1], amt)]
     ctx.ob("C15.R2", fp, bool(uses) and all(x[2] == N.mk_mul(N.const(8), grp) or x[2] == N.const(8) or N.contains(x[1], ("mod", amt, N.mk_mul(N.const(8), grp))) for x in uses),
            "the amount is reduced modulo group*8 bits", key="RotateLeft modulus")
+    rot_length_guard(ctx, "C15.R2")
     for cls_m in ("_parse", "_build"):
         fi, paths = own_method_paths(ctx, "ProcessRotateLeft", cls_m)
         ln = [p for p in paths if p.outcome[0] == "raise" and p.outcome[1].get("cls") == "RotationError"]
         conds = {c for p in ln for c in p.guards()}
         ok = N.mk_cmp("<", grp, N.const(1)) in conds and any(c[0] == "cmp" and c[1] == "!=" and c[2][0] == "mod" and c[2][2] == grp for c in conds)
         ctx.ob("C15.R2", fi, ok, "ProcessRotateLeft.%s rejects group < 1 and data whose length is not a multiple of the group" % cls_m, key="RotateLeft guards %s" % cls_m)
-    ctx.floor("C15.R2", 5)
+    ctx.floor("C15.R2", 7)
 
     # ---- R3 swaps
     sites = C10.check_macros(ctx, ("ByteSwapped", "BitsSwapped"), "C15.R3", "C15.R3", "C15.R3")
@@ -165,8 +240,11 @@ def run(ctx):
     C01.tunnel_checks(sub, "C15.R4")
     for o in sub.obligations:
         ctx.ob(o.rule, o.where, o.ok, o.what, key=o.key, loc=o.loc, detail=o.detail)
-    ctx.floor("C15.R4", 4)
+    ctx.floor("C15.R4", 5)
 
+    # ---- R7 length preservation
+    length_preserving(ctx, "C15.R7")
+    ctx.floor("C15.R7", 4)
     # ---- R6 direction: the documented transform is a rotation to the LEFT
     rot_direction(ctx, M, fp, a)
 
